@@ -83,6 +83,21 @@ def timing_histories(rng, thorough):
             oc["ts%d@origin.test" % i] = "K"
             sc += [("advance", 5000), ("answer", "fifo"), ("answer", "fifo"), ("answer", "fifo"), ("advance", 20000), ("answer", "fifo"), ("answer", "fifo"), ("answer", "fifo")]
             mk("O", ms, oc, sc, conc=(1, 1))
+        # several messages deferred at staggered times on one channel, then every computed wake-up is taken in turn: the daemon
+        # must sleep until the EARLIEST due time (its select time-out comes from the minimum of the retry queue) and serve that one
+        for v in range(2):
+            i = len(hs)
+            nm = 3 + v
+            ms, oc, sc = [], {}, []
+            for k in range(nm):
+                a = b"t%dq%d@%s" % (i, k, b"local.test" if v == 0 else b"remote.test")
+                ms.append(msg(i, k, [a]))
+                oc[a.decode()] = "ZZZK"
+                sc += [("inject", k), ("answer", "fifo"), ("advance", [3, 6, 9, 14][k])]
+            oc["ts%d@origin.test" % i] = "K"
+            for _ in range(4 * nm):
+                sc += [("nextdue", 0), ("answer", "fifo")]
+            mk("M", ms, oc, sc)
     return hs
 
 
